@@ -259,6 +259,11 @@ func init() {
 		ok := fmt.Sprintf("(strconv.ParseUint.ok %s %s)", s, b)
 		return []Val{{S: "Int", T: fmt.Sprintf("(strconv.ParseUint.val %s %s)", s, b)}, {S: "Err", T: fmt.Sprintf("(ite %s ErrNil (EOther %s))", ok, st.fresh("errid", "Int"))}}
 	})
+	libModels["strconv.ParseInt"] = pure("uninterpreted value and success flag, functions of the text and base (distinct from ParseUint's)", func(x *Exec, st *State, a []Val, site ssa.Instruction) []Val {
+		s, b := x.term(st, a[0], false), x.term(st, a[1], false)
+		ok := fmt.Sprintf("(strconv.ParseInt.ok %s %s)", s, b)
+		return []Val{{S: "Int", T: fmt.Sprintf("(strconv.ParseInt.val %s %s)", s, b)}, {S: "Err", T: fmt.Sprintf("(ite %s ErrNil (EOther %s))", ok, st.fresh("errid", "Int"))}}
+	})
 	libModels["strconv.FormatUint"] = pure("uninterpreted function of value and base; non-empty; base 10 yields decimal digits only", func(x *Exec, st *State, a []Val, site ssa.Instruction) []Val {
 		return []Val{{S: "Str", T: fmt.Sprintf("(strconv.FormatUint %s %s)", x.term(st, a[0], false), x.term(st, a[1], false))}}
 	})
@@ -377,6 +382,8 @@ const libPrelude = `; ---- assumed library vocabulary (A5)
 (declare-fun strconv.ParseUint.val (Str Int) Int)
 (declare-fun strconv.ParseUint.ok (Str Int) Bool)
 (declare-fun strconv.FormatUint (Int Int) Str)
+(declare-fun strconv.ParseInt.val (Str Int) Int)
+(declare-fun strconv.ParseInt.ok (Str Int) Bool)
 (assert (forall ((n Int) (b Int)) (! (> (Str.len (strconv.FormatUint n b)) 0) :pattern ((strconv.FormatUint n b)))))
 (assert (forall ((n Int) (i Int)) (! (=> (and (<= 0 i) (< i (Str.len (strconv.FormatUint n 10)))) (and (<= 48 (Str.nth (strconv.FormatUint n 10) i)) (<= (Str.nth (strconv.FormatUint n 10) i) 57))) :pattern ((Str.nth (strconv.FormatUint n 10) i)))))
 (declare-fun Str.ofRune (Int) Str)
